@@ -31,6 +31,8 @@ import (
 type vvAmt struct {
 	G int `json:"g"` // giant unit (transaction-only amounts, up to the Integer encoding limit)
 	H int `json:"h"` // huge unit (fits the default asset capacity, exists in the ledger)
+	V int `json:"v"` // 2^127 units
+	W int `json:"w"` // 2^63 units
 	C int `json:"c"` // capacity of the Bitcoin asset
 	P int `json:"p"` // kernel node pledge amount
 	N int `json:"n"` // 1e-8 units
@@ -132,6 +134,8 @@ var vvSlotDefs = map[string]vvSlotDef{
 	"o3":  {asset: "OTH", typ: "script", amt: vvAmt{N: 3}, nk: 3, thr: 2},
 	"oh":  {asset: "OTH", typ: "script", amt: vvAmt{H: 1}, nk: 1, thr: 1},
 	"oh2": {asset: "OTH", typ: "script", amt: vvAmt{H: 1}, nk: 1, thr: 1},
+	"ow1":  {asset: "OTH", typ: "script", amt: vvAmt{W: 1}, nk: 1, thr: 1},
+	"ow2":  {asset: "OTH", typ: "script", amt: vvAmt{W: 1}, nk: 1, thr: 1},
 	"k64a": {asset: "OTH", typ: "script", amt: vvAmt{N: 1}, nk: 64, thr: 64},
 	"k64b": {asset: "OTH", typ: "script", amt: vvAmt{N: 1}, nk: 64, thr: 33},
 }
@@ -232,6 +236,8 @@ func (w *vvWorld) value(a vvAmt) *big.Int {
 	v.Add(v, t.Mul(big.NewInt(int64(a.G)), w.gval))
 	t = new(big.Int)
 	v.Add(v, t.Mul(big.NewInt(int64(a.H)), w.hval))
+	v.Add(v, new(big.Int).Mul(big.NewInt(int64(a.V)), new(big.Int).Lsh(big.NewInt(1), 127)))
+	v.Add(v, new(big.Int).Mul(big.NewInt(int64(a.W)), new(big.Int).Lsh(big.NewInt(1), 63)))
 	t = new(big.Int)
 	v.Add(v, t.Mul(big.NewInt(int64(a.C)), vvCapBTC))
 	t = new(big.Int)
@@ -620,6 +626,23 @@ func (w *vvWorld) extraBytes(c *vvCase) []byte {
 		}
 		sig := key.Sign(msg)
 		return append(append([]byte{}, sig[:]...), data...)
+	case "cancelOK", "cancelFF", "cancelZero":
+		// pledge extra (signer, payee) followed by the view key the cancel rule uses as a scalar
+		pre := fill(64)
+		if w.pledgeTx != nil {
+			pre = append([]byte{}, w.pledgeTx.Extra...)
+		}
+		tail := make([]byte, 32)
+		switch c.Extra {
+		case "cancelOK":
+			k := vvPriv("cancel-view", w.seed, c.Id)
+			copy(tail, k[:])
+		case "cancelFF":
+			for i := range tail {
+				tail[i] = 0xff
+			}
+		}
+		return append(pre, tail...)
 	case "custOK", "custBadSig", "custUnsorted", "custShort", "cust6":
 		return w.custodianExtra(c.Extra)
 	}
@@ -806,6 +829,10 @@ func (b *vvBuilt) signature(j, i int, kind string, msg crypto.Hash) crypto.Signa
 		return vvFlip(right.Sign(msg), 33+(c.Id+i)%20)
 	case "TO":
 		return vvTorsionSign(right, msg)
+	case "K1":
+		return vvShiftS(right.Sign(msg), vvPriv("compensation", w.seed, c.Id), false)
+	case "K2":
+		return vvShiftS(right.Sign(msg), vvPriv("compensation", w.seed, c.Id), true)
 	}
 	var sig crypto.Signature
 	h1, h2 := vvHash("garbage", w.seed, c.Id, j, i), vvHash("garbage2", w.seed, c.Id, j, i)
@@ -864,6 +891,25 @@ func (b *vvBuilt) sign() {
 		}
 		b.tx.SignaturesMap = append(b.tx.SignaturesMap, sm)
 	}
+}
+
+// S := S + d (or S - d) mod L: a compensated pair keeps the sum of the S halves
+func vvShiftS(sig crypto.Signature, d crypto.Key, neg bool) crypto.Signature {
+	s, err := edwards25519.NewScalar().SetCanonicalBytes(sig[32:])
+	if err != nil {
+		panic(err)
+	}
+	ds, err := edwards25519.NewScalar().SetCanonicalBytes(d[:])
+	if err != nil {
+		panic(err)
+	}
+	if neg {
+		s.Subtract(s, ds)
+	} else {
+		s.Add(s, ds)
+	}
+	copy(sig[32:], s.Bytes())
+	return sig
 }
 
 // a signature by priv whose R carries a component of order 8: it satisfies the cofactored
@@ -1172,6 +1218,10 @@ func (r *vvRun) runBatch(n int, v vvBatchVec) {
 			sig = vvFlip(priv.Sign(msg), 32+(n+i)%32)
 		case "TO":
 			sig = vvTorsionSign(priv, msg)
+		case "K1":
+			sig = vvShiftS(priv.Sign(msg), vvPriv("batch-compensation", vSeed(), n), false)
+		case "K2":
+			sig = vvShiftS(priv.Sign(msg), vvPriv("batch-compensation", vSeed(), n), true)
 		case "ZS": // S = 0, R = 0 bytes
 		default:
 			h1, h2 := vvHash("bg", n, i), vvHash("bg2", n, i)
